@@ -316,6 +316,24 @@ namespace verif
 
     Verdict run_case(const uint8_t* data, size_t size, Report& rep)
     {
+        if (fnv1a(data, size, 0xc18) % 16 == 0)
+        {
+            // three threads parse and print different media types at the same moment
+            rep.label("three-threads-at-once");
+            std::string f = on_threads(3, [&](int t) -> std::string {
+                static const char* SUB[] = { "json", "xml", "html" };
+                for (int i = 0; i < 150; ++i)
+                {
+                    char text[96];
+                    snprintf(text, sizeof text, "%s/%s; q=0.%d; n%d=v%d", t == 2 ? "text" : "application", SUB[t], 1 + (i + t) % 9, t, i);
+                    MediaType m = MediaType::fromString(text);
+                    if (m.toString() != text || !m.q() || int(m.q()->value()) != 10 * (1 + (i + t) % 9) || !m.getParam("n" + std::to_string(t)) || *m.getParam("n" + std::to_string(t)) != "v" + std::to_string(i))
+                        return std::string("thread ") + std::to_string(t) + " parsed \"" + text + "\" and got \"" + m.toString() + "\"";
+                }
+                return "";
+            });
+            V_CHECK(f.empty(), "C18/concurrent-parsers", "three threads parsing different media types at the same moment: " + f);
+        }
         {
             static bool judged = false;
             if (!judged)
